@@ -37,6 +37,72 @@ def subst_value(v, kvar, k):
     return v
 
 
+def _probe_consts(t, start, acc):
+    """uninterpreted constants of term t that smt.fresh created after counter value `start`"""
+    seen = set()
+
+    def rec(x):
+        if x.get_id() in seen:
+            return
+        seen.add(x.get_id())
+        if z3.is_const(x) and x.decl().kind() == z3.Z3_OP_UNINTERPRETED:
+            nm = x.decl().name()
+            if "!" in nm:
+                try:
+                    if int(nm.rsplit("!", 1)[1]) > start:
+                        acc[nm] = x
+                except ValueError:
+                    pass
+            return
+        if z3.is_app(x):
+            for c in x.children():
+                rec(c)
+        elif z3.is_quantifier(x):
+            rec(x.body())
+
+    rec(t)
+
+
+def generalise_template(v, kvar, start):
+    """A value template obtained by probing one generic element may mention constants created during the probe (an unspecified
+    string, a fresh result...). They stand for a value *per element*: replace each by a fresh function of the index."""
+    acc = {}
+
+    def terms(x):
+        if isinstance(x, Sym):
+            if x.t is not None and hasattr(x.t, "get_id"):
+                _probe_consts(x.t, start, acc)
+            if x.isint is not None and not isinstance(x.isint, bool):
+                _probe_consts(x.isint, start, acc)
+        elif isinstance(x, TupleV):
+            for y in x.items:
+                terms(y)
+        elif isinstance(x, (DataView, MaskView)):
+            terms(x.base)
+
+    terms(v)
+    acc.pop(kvar.decl().name(), None)
+    if not acc:
+        return v
+    pairs = [(c, smt.fresh_fun(nm.split("!")[0] + "_at", z3.IntSort(), c.sort())(kvar)) for nm, c in acc.items()]
+
+    def sub(x):
+        if isinstance(x, Sym):
+            ii = x.isint
+            if ii is not None and not isinstance(ii, bool):
+                ii = z3.substitute(ii, *pairs)
+            return Sym(x.kind, z3.substitute(x.t, *pairs) if x.t is not None and hasattr(x.t, "get_id") else x.t, ii)
+        if isinstance(x, TupleV):
+            return TupleV([sub(y) for y in x.items])
+        if isinstance(x, DataView):
+            return DataView(sub(x.base))
+        if isinstance(x, MaskView):
+            return MaskView(sub(x.base))
+        return x
+
+    return sub(v)
+
+
 class ModelMixin(object):
     # ------------------------------------------------------------------ dispatch
     def call_builtin(self, name, st, args, kwargs, node=None):
@@ -377,6 +443,11 @@ class ModelMixin(object):
 
     # ------------------------------------------------------------------ attributes
     def get_attr(self, st, o, name):
+        if isinstance(o, ExcSym):
+            if name in o.fields:
+                yield st, o.fields[name]
+                return
+            raise Unsupported("attribute %s of a symbolic %s" % (name, o.base))
         if isinstance(o, ModuleV):
             if o.name in self.repo.by_dotted:
                 yield st, self.module_attr(self.repo.by_dotted[o.name], name, st)
@@ -454,6 +525,9 @@ class ModelMixin(object):
             return
         if is_num(o):
             raise Unsupported("attribute %s of a number is not modelled" % name)
+        if isinstance(o, BuiltinV) and getattr(o, "self_val", None) is None and o.name in ("sys.stderr", "sys.stdout", "os.path"):
+            yield st, BuiltinV("%s.%s" % (o.name, name))
+            return
         raise Unsupported("attribute %s of %r" % (name, o))
 
     def class_attr_hook(self, st, o, name):
@@ -629,6 +703,37 @@ class ModelMixin(object):
                         else:
                             yield s3, [v] + rest
 
+    def _merge_outcomes(self, base, outs):
+        """several effect-free outcomes of one element expression (a conditional expression forked) -> one guarded value.
+        Each outcome's path facts become implications of its branch condition; gives up (returns outs) when anything but
+        ground facts distinguishes the outcomes."""
+        n0 = len(base.pc)
+        for s, v in outs:
+            if len(s.qhyps) != len(base.qhyps) or len(s.khyps) != len(base.khyps) or s.heap != base.heap or len(s.log) != len(base.log):
+                return outs
+            if isinstance(v, Ref):
+                return outs
+        merged = outs[-1][0].fork()
+        merged.pc = list(base.pc)
+        val = None
+        conds = []
+        for s, v in outs:
+            new = s.pc[n0:]
+            if not new:
+                return outs
+            # guard = everything this outcome learnt (it contains its branch condition, so the guards exclude each other)
+            conds.append(z3.And(*new) if len(new) > 1 else new[0])
+            for kt in s.kterms[len(base.kterms):]:
+                merged.kterms.append(kt)
+        merged.pc.append(z3.Or(*conds))
+        try:
+            val = outs[-1][1]
+            for (s, v), c in reversed(list(zip(outs[:-1], conds[:-1]))):
+                val = self.ite_value(c, v, val)
+        except Unsupported:
+            return outs
+        return [(merged, val)]
+
     def _comp_symbolic(self, node, g, elt, st, seq, saved):
         fi0 = self.frames[-1] if self.frames else None
         has_lc = fi0 is not None and (fi0.key, "comp", self.loop_ordinal("comp", node)) in self.loop_contracts
@@ -695,6 +800,7 @@ class ModelMixin(object):
                     yield s2, Raised(out[1])
             return
         kvar = smt.fresh("k", z3.IntSort())
+        probe_start = smt._counter[0]
         probe = st.fork()
         probe.assume(z3.And(kvar >= 0, kvar < seq.n))
         probe.note_k(kvar)
@@ -705,9 +811,12 @@ class ModelMixin(object):
                 raise Unsupported("comprehension target")
             for s2, v in self.ev(elt, s1):
                 outs.append((s2, v))
+        if len(outs) > 1 and not any(isinstance(v, Raised) for _, v in outs):
+            outs = self._merge_outcomes(probe, outs)
         if len(outs) != 1 or isinstance(outs[0][1], Raised):
             raise Unsupported("comprehension element over a symbolic sequence forks or raises (%d outcomes)" % len(outs))
         s2, tmpl = outs[0]
+        tmpl = generalise_template(tmpl, kvar, probe_start)
         # element expression must be pure apart from logging (touch events)
         new_oids = set(s2.store.keys()) - before
         if isinstance(tmpl, Ref) and tmpl.oid in new_oids:
